@@ -127,7 +127,7 @@ def main():
     F = static_call_sites(H)
     if nfun < 10 or F < nfun:
         H.inconclusive.append("only %d parse_* functions / %d call sites found in parser.rs" % (nfun, F))
-    nmax = int(os.environ.get("C17_N", "0")) or (4 if quick else 5)
+    nmax = int(os.environ.get("C17_N", "0")) or (3 if quick else 5)
     growth = []
     for n in range(0, nmax + 1):
         name = "parse on every sequence of %d tokens: calls of parse_* functions" % n
